@@ -85,6 +85,11 @@ def tempo_maps(draw, max_segments: int = 24, values=bpm_values, res=resolutions,
             pg, pgap, n = pattern[k % len(pattern)]
         elif k > 0 and draw(st.integers(0, 6)) == 0:
             n = tempo[-1][1]          # a tempo event that restates the tempo already in force
+        elif k > 0 and draw(st.integers(0, 9)) == 0:
+            # a tempo in a simple ratio to the one in force (double / half time, x3, x1000)
+            p = tempo[-1][1]
+            n = draw(st.sampled_from([p * 2, max(1, p // 2), p * 3, max(1, p // 3), min(p * 1000, 10 ** 9), max(1, p // 1000)]))
+            n = max(1, min(n, 10 ** 9))
         else:
             n = draw(values)
         if k > 0:
@@ -92,7 +97,7 @@ def tempo_maps(draw, max_segments: int = 24, values=bpm_values, res=resolutions,
             max_gap = int(remaining / prev_spt)
             if max_gap < 1:
                 break
-            gap_choice = pg if pattern is not None else draw(st.integers(0, 5))
+            gap_choice = pg if pattern is not None else draw(st.integers(0, 6))
             if pattern is not None:
                 gap = 1 if pg == 1 else 2 if pg == 2 else pgap
                 gap = max(1, min(gap, max_gap))
@@ -109,6 +114,10 @@ def tempo_maps(draw, max_segments: int = 24, values=bpm_values, res=resolutions,
                 gap = draw(st.integers(1, 4 * r))
             elif gap_choice == 4:
                 gap = draw(st.integers(1, 64))
+            elif gap_choice == 6:
+                # a LONG stretch: a sizeable share of what the time budget leaves (under a fast tempo this
+                # puts the next tempo change at a tick of 10^10 .. 10^13)
+                gap = max_gap // draw(st.sampled_from([1, 2, 3, 10, 1000]))
             else:
                 gap = draw(st.integers(1, 10 ** 6))
             if gap_choice != -1:
@@ -267,6 +276,9 @@ words = st.one_of(st.sampled_from(["solo", "soloend", "ENABLE_CHART_DYNAMICS", "
                            max_size=3).map("".join))
 
 
+# blank padding longer than any plausible line buffer / length guard (2^16 and beyond): a line is a line
+HUGE_PADS = [" " * 70000, "\t" * 66000, " \t" * 40000]
+
 # tick offsets around the widths of machine integers and of the float mantissa: nothing in the format
 # bounds a tick, so a section's meaning must survive being moved up by any of them
 BIG_OFFSETS_32 = [2 ** 31 - 40, 2 ** 32 - 40, 2 ** 32, 2 ** 33 + 7]
@@ -345,7 +357,12 @@ KNOWN_GLOBAL_EVENTS = ["end", "music_start", "music_end", "coda", "idle", "play"
                        "sync_head_bang", "sync_wag", "lighting (chase)", "lighting (strobe)", "lighting ()", "verse",
                        "chorus", "solo", "soloend", "preview", "Default", "ENABLE_CHART_DYNAMICS", "section end",
                        "section prc_intro", "section [prc_verse_1]", "lyric +", "lyric #", "lyric ^", "lyric -",
-                       "lyric to-", "lyric =geth=", "lyric er$", "lyric §", "phrase_start", "phrase_end"]
+                       "lyric to-", "lyric =geth=", "lyric er$", "lyric §", "phrase_start", "phrase_end",
+                       # keywords of neighbouring dialects at the START of a text (Rock Band practice sections,
+                       # other spellings of the two prefixes): plain texts to this library
+                       "prc_intro", "prc_", "[prc_verse_1]", "sectionIntro", "section_intro", "Section Intro", "SECTION x",
+                       "sec Intro", "lyrics hi", "lyric_hi", "Lyric hi", "LYRIC hi", "lyr hi", "text x", "event x",
+                       "phrase_start 1", "section", "lyric", "section\tx", "lyric\tx"]
 KNOWN_TRACK_WORDS = ["solo", "soloend", "ENABLE_CHART_DYNAMICS", "ENHANCED_OPENS", "[ENHANCED_OPENS]", "*", "T", "O", "H",
                      "P", "N", "S", "E", "5", "6", "7", "end", "forced", "tap", "open", "idle", "play", "ow_face_on",
                      "ow_face_off", "mix_3_drums0d", "map", "HandMap_Default", "sp", "starpower", "ghl", "disco"]
@@ -406,13 +423,20 @@ def chart_specs(draw, max_segments: int = 8, max_tracks: int = 2, max_notes: int
     tick_st = tick_strategy(tm, max_tick)
     # sync section
     ts_ticks = sorted(draw(st.sets(tick_st.filter(lambda t: t > 0), max_size=max_ts)))
-    sync = [[0, "TS", draw(st.integers(1, 16)), draw(st.one_of(st.none(), st.integers(0, 6)))]]
+    ts_exp = st.one_of(st.none(), st.integers(0, 6), st.integers(0, 6), st.sampled_from([7, 8, 10, 16]))
+    sync = [[0, "TS", draw(st.integers(1, 16)), draw(ts_exp)]]
     for t in ts_ticks:
-        sync.append([t, "TS", draw(st.integers(1, 16)), draw(st.one_of(st.none(), st.integers(0, 6)))])
+        sync.append([t, "TS", draw(st.one_of(st.integers(1, 16), st.sampled_from([0, 17, 32, 255]))), draw(ts_exp)])
     for t, n in tmap["tempo"]:
         sync.append([t, "B", n])
-    for t in sorted(draw(st.sets(tick_st, max_size=max_anchors))):
-        sync.append([t, "A", draw(st.integers(0, anchor_max))])
+    for t in sorted(draw(st.sets(st.one_of(tick_st, st.sampled_from(tm.ticks)), max_size=max_anchors))):
+        # an anchor's literal time pins nothing: drawn at random, or (as in real charts) equal / very close
+        # to what the tempo map says for its tick
+        if draw(st.booleans()):
+            us = draw(st.integers(0, anchor_max))
+        else:
+            us = max(0, int(tm.exact_us(t)) + draw(st.sampled_from([0, 1, -1, 7, -7, 500, -500, 999, -999, 1001, 10 ** 4])))
+        sync.append([t, "A", us])
     order = {"TS": 0, "B": 1, "A": 2}
     sync.sort(key=lambda it: (it[0], order[it[1]]))
     # global events
